@@ -10,6 +10,7 @@ import (
 	"errors"
 	"fmt"
 	"net"
+	"runtime"
 	"strings"
 	"sync"
 	"sync/atomic"
@@ -43,6 +44,7 @@ func runShutdown(c *Ctx, cases *[]string) {
 	for i := 0; i < c.Scale(30, 300) && !giveUp("threadgroup-stress") && failedRuns["threadgroup"] == 0; i++ {
 		tgStress(c, c.R.U64())
 	}
+	tgRace(c, c.R.U64())
 	for i := 0; i < c.Scale(16, 64) && !giveUp("rhp4-shutdown"); i++ {
 		rhp4Shutdown(c, c.R.U64(), i, cases)
 	}
@@ -268,6 +270,61 @@ func tgStress(c *Ctx, seed uint64) {
 	c.Res.Count("threadgroup:stress")
 	c.Res.CountN("threadgroup:threads-run", int(started.Load()))
 	report(c, "threadgroup-stress", seed, bedConfig{}, workers, []string{fmt.Sprintf("%d workers, Stop at a random moment", workers)}, fails)
+}
+
+// tgRace: only the exported API, many short rounds.  A few goroutines keep joining and leaving
+// the group while the main goroutine stops it and then raises a flag.  A goroutine that holds a
+// successful Add must never see the flag: Stop waits for every admitted thread, and a thread that
+// arrives after the group was closed is refused.
+func tgRace(c *Ctx, seed uint64) {
+	if runtime.GOMAXPROCS(0) < 2 {
+		c.Res.Notes = append(c.Res.Notes, "threadgroup Add/Stop race not run: GOMAXPROCS < 2")
+		return
+	}
+	r := rng.New(seed)
+	var fails []failure
+	rounds, deadline := c.Scale(2500, 60000), time.Now().Add(time.Duration(c.Scale(1500, 20000))*time.Millisecond)
+	ran := 0
+	for ; ran < rounds && time.Now().Before(deadline) && len(fails) == 0; ran++ {
+		tg := threadgroup.New()
+		var stopped atomic.Bool
+		var late atomic.Int64
+		var wg sync.WaitGroup
+		start := make(chan struct{})
+		adders := 2 + r.Intn(5)
+		for i := 0; i < adders; i++ {
+			wg.Add(1)
+			go func() {
+				defer wg.Done()
+				<-start
+				for {
+					done, err := tg.Add()
+					if err != nil {
+						return
+					}
+					if stopped.Load() {
+						late.Add(1)
+						done()
+						return
+					}
+					done()
+				}
+			}()
+		}
+		close(start)
+		for i := r.Intn(3); i > 0; i-- {
+			runtime.Gosched()
+		}
+		tg.Stop()
+		stopped.Store(true)
+		wg.Wait()
+		if n := late.Load(); n > 0 {
+			fails = append(fails, failure{"threadgroup-add-admitted-after-stop-returned", fmt.Sprintf("round %d, %d goroutines looping Add/done while Stop is called: %d thread(s) were admitted by Add after Stop had returned", ran, adders, n)})
+		}
+	}
+	c.Res.Eval(fmt.Sprintf("tgrace|%d", seed), true)
+	c.Res.CountN("threadgroup:add-stop-race-rounds", ran)
+	report(c, "threadgroup-race", seed, bedConfig{}, 0, []string{"goroutines loop Add/done; main: Stop, then raise a flag; a holder of a successful Add must never see the flag"}, fails)
 }
 
 // ------------------------------------------------------------ rhp4.Server
